@@ -58,7 +58,7 @@ func (s BasicPrivateTokenRequestState) FinalizeToken(tokenResponseEnc []byte) (t
 		return tokens.Token{}, err
 	}
 
-	tokenData := append(s.tokenInput, outputs[0]...)
+	tokenData := append(append([]byte{}, s.tokenInput...), outputs[0]...)
 	token, err := UnmarshalPrivateToken(tokenData)
 	if err != nil {
 		return tokens.Token{}, err
